@@ -476,7 +476,10 @@ class BaseClient:
 
         s = s[i:].lstrip()
         info["modify"] = self.parse_ls_date(s[:12].strip())
-        s = s[12:].strip()
+        # exactly one space separates date and name, name can start with spaces
+        s = s[12:]
+        if s.startswith(" "):
+            s = s[1:]
         if info["type"] == "link":
             i = s.rindex(" -> ")
             link_dst = s[i + 4 :]
